@@ -21,6 +21,7 @@
        "A" absent                           "C" commit flag, valid signature over bid
        "X" commit flag, invalid signature   "R" commit flag, valid signature, wrong address
        "N" nil flag, valid signature        "M" nil flag, invalid signature
+       "Q" nil flag, valid signature, wrong address  (a genuine nil precommit re-labelled)
    A block is [h, id, uid, lc, valid]: id names the header hash, uid names the complete
    bytes (hence the part-set header), lc = its LastCommit (a commit for h-1), valid = the
    header passes state/validation.go against the canonical state (the LastCommit check of
@@ -35,6 +36,8 @@ CONSTANTS
   T,                        \* tip of the canonical chain
   Peers, Honest,            \* peer ids (strings); Honest \subseteq Peers
   ValsAt,                   \* [1..T+1 -> Seq(Nat)] voting powers in validator-set order
+  NilAt,                    \* heights at which the LAST validator of the set genuinely precommitted nil
+                            \* (legal: > 2/3 still committed the block; the canonical commit then carries an "N" slot)
   LieKinds,                 \* response kinds available to liars (see BlockOfKind)
   LiarStatus,               \* set of [base, height] records liars may report
   MaxLies, MaxJoins, MaxReq, MaxStatus, \* model bounds: lying responses per run, joins per peer, requesters, liar status reports
@@ -42,6 +45,7 @@ CONSTANTS
   Weak_SaveBeforeValidate,  \* SaveBlock(first) runs before the verification result is looked at
   Weak_NoRedo,              \* on failure: no RedoRequest, no StopPeerForError
   Weak_SeenCommitUnchecked, \* second.LastCommit is stored as seen commit after the early-exit check only
+  Weak_NilSlotAddressUnchecked, \* VerifySeenCommit compares the validator address of commit-flag slots only
   Weak_StaleMaxPeerHeight,  \* SetPeerRange never lowers maxPeerHeight
   Weak_NoBlockValidation,   \* poolRoutine does not call ValidateBlock(first)
   Weak_PartSetNotCompared   \* the BlockID handed to the commit check carries the commit's own part-set header
@@ -73,7 +77,7 @@ Abs(x) == IF x < 0 THEN -x ELSE x
 RECURSIVE LightWalk(_, _, _, _)
 LightWalk(pows, slots, i, tally) ==
   IF i > Len(slots) THEN FALSE
-  ELSE IF slots[i] \in {"A", "N", "M"} THEN LightWalk(pows, slots, i + 1, tally)
+  ELSE IF slots[i] \in {"A", "N", "M", "Q"} THEN LightWalk(pows, slots, i + 1, tally)
   ELSE IF slots[i] = "X" THEN FALSE
   ELSE IF QuorumCode(tally + pows[i], Total(pows)) THEN TRUE
   ELSE LightWalk(pows, slots, i + 1, tally + pows[i])
@@ -86,7 +90,7 @@ VerifyLight(pows, bid, h, c) ==
 
 \* VerifyCommit: every non-absent slot's signature is verified (nil votes too); the
 \* address field is NOT compared (index based).
-SigValid(s) == s \in {"C", "R", "N"}
+SigValid(s) == s \in {"C", "R", "N", "Q"}
 ForBlockPower(pows, slots) ==
   SumSeq([i \in 1..Len(slots) |-> IF slots[i] \in {"C", "R"} THEN pows[i] ELSE 0])
 VerifyFull(pows, bid, h, c) ==
@@ -106,7 +110,11 @@ VoteSetClean(pows, c) ==
 
 \* The repaired reactor verifies the commit it is about to store as the seen commit
 \* completely (proposed-fixes/C13-*.diff): all signatures and the address of every slot.
-VerifySeen(pows, bid, h, c) == VerifyFull(pows, bid, h, c) /\ VoteSetClean(pows, c)
+\* blockchain/commit.go VerifySeenCommit: VerifyCommit, then the address of EVERY non-absent slot
+\* (nil votes too: CommitToVoteSet adds them as votes as well)
+VerifySeen(pows, bid, h, c) ==
+  /\ VerifyFull(pows, bid, h, c)
+  /\ \A i \in 1..Len(c.slots) : c.slots[i] # "R" /\ (Weak_NilSlotAddressUnchecked \/ c.slots[i] # "Q")
 
 \* what the property statement demands of the commit that admits block h with BlockID bid:
 \* valid signatures of > 2/3 of the prescribed set over exactly that hash AND part-set header
@@ -119,9 +127,10 @@ Covers(pows, bid, h, c) ==
 \* ------------------------------------------------------------------ the canonical chain and the liars' menu
 CanonId(h)  == "C" \o ToString(h)
 CanonBID(h) == [hash |-> CanonId(h), psh |-> CanonId(h)]
-FullSlots(pows) == [i \in 1..Len(pows) |-> "C"]
-\* the commit every honest node holds for height g (all validators signed)
-CanonCommit(g) == IF g = 0 THEN NoCommit ELSE [h |-> g, bid |-> CanonBID(g), slots |-> FullSlots(ValsAt[g])]
+\* the commit every honest node holds for height g: all validators precommitted the block,
+\* except that at the heights in NilAt the last one precommitted nil
+GenSlots(g) == [i \in 1..Len(ValsAt[g]) |-> IF g \in NilAt /\ i = Len(ValsAt[g]) THEN "N" ELSE "C"]
+CanonCommit(g) == IF g = 0 THEN NoCommit ELSE [h |-> g, bid |-> CanonBID(g), slots |-> GenSlots(g)]
 CanonBlock(h) == [h |-> h, id |-> CanonId(h), uid |-> CanonId(h), lc |-> CanonCommit(h - 1), valid |-> TRUE]
 
 \* index of the slot at which the early-exit walk over a full commit returns
@@ -131,22 +140,24 @@ QIdxFrom(pows, i, tally) ==
   ELSE IF QuorumCode(tally + pows[i], Total(pows)) THEN i ELSE QIdxFrom(pows, i + 1, tally + pows[i])
 QIdx(pows) == QIdxFrom(pows, 1, 0)
 
-\* slot patterns a liar can assemble from the genuine precommits (it cannot forge a
-\* valid signature: "C"/"R"/"N" appear only where a genuine signature over bid exists)
-SlotsOfKind(kind, pows) ==
+\* slot patterns a liar can assemble from the genuine precommits gen (it cannot forge a valid
+\* signature: "C"/"R" appear only where a genuine commit signature exists, "N"/"Q" only where
+\* a genuine nil signature exists; the nil voter is the last slot, behind the quorum)
+SlotsOfKind(kind, pows, gen) ==
   LET n == Len(pows)  k == QIdx(pows) IN
-  CASE kind = "full"       -> FullSlots(pows)
-    [] kind = "quorumOnly" -> [i \in 1..n |-> IF i <= k THEN "C" ELSE "A"]
+  CASE kind = "quorumOnly" -> [i \in 1..n |-> IF i <= k THEN "C" ELSE "A"]
     [] kind = "noQuorum"   -> [i \in 1..n |-> IF i < k THEN "C" ELSE "A"]
-    [] kind = "badEarly"   -> [i \in 1..n |-> IF i = 1 THEN "X" ELSE "C"]
+    [] kind = "badEarly"   -> [i \in 1..n |-> IF i = 1 THEN "X" ELSE gen[i]]
     [] kind = "padBad"     -> [i \in 1..n |-> IF i <= k THEN "C" ELSE IF i = k + 1 THEN "X" ELSE "A"]
     [] kind = "padNil"     -> [i \in 1..n |-> IF i <= k THEN "C" ELSE IF i = k + 1 THEN "M" ELSE "A"]
-    [] kind = "padAddr"    -> [i \in 1..n |-> IF i <= k THEN "C" ELSE IF i = k + 1 THEN "R" ELSE "A"]
-    [] kind = "addrEarly"  -> [i \in 1..n |-> IF i = 1 THEN "R" ELSE "C"]
-    [] kind = "shortSet"   -> [i \in 1..(n - 1) |-> "C"]
-    [] OTHER               -> FullSlots(pows)
+    [] kind = "padAddr"    -> [i \in 1..n |-> IF i <= k THEN "C" ELSE IF i = k + 1 THEN (IF gen[i] = "N" THEN "Q" ELSE "R") ELSE "A"]
+    [] kind = "addrEarly"  -> [i \in 1..n |-> IF i = 1 THEN "R" ELSE gen[i]]
+    [] kind = "shortSet"   -> [i \in 1..(n - 1) |-> gen[i]]
+    \* the genuine nil precommit(s) under another validator's address
+    [] kind = "nilAddr"    -> [i \in 1..n |-> IF gen[i] = "N" THEN "Q" ELSE gen[i]]
+    [] OTHER               -> gen
 
-CommitKinds == {"quorumOnly", "noQuorum", "badEarly", "padBad", "padNil", "padAddr", "addrEarly", "shortSet"}
+CommitKinds == {"quorumOnly", "noQuorum", "badEarly", "padBad", "padNil", "padAddr", "addrEarly", "shortSet", "nilAddr"}
 
 \* the block a peer sends for a request of height h, by response kind:
 \*   "H"          the canonical block
@@ -163,20 +174,21 @@ BlockOfKind(kind, h) ==
     [] kind = "WC" -> IF h = 1 THEN CanonBlock(h)
                       ELSE [h |-> h, id |-> CanonId(h), uid |-> nm,
                             lc |-> [h |-> h - 1, bid |-> [hash |-> "W" \o ToString(h - 1), psh |-> "W" \o ToString(h - 1)],
-                                    slots |-> [i \in 1..Len(ValsAt[h - 1]) |-> "X"]],
+                                    \* (a nil precommit does not sign the BlockID: it stays valid)
+                                    slots |-> [i \in 1..Len(ValsAt[h - 1]) |-> IF GenSlots(h - 1)[i] = "N" THEN "N" ELSE "X"]],
                             valid |-> TRUE]
     \* the height is part of the signed bytes but not of Commit.Hash(): same header hash,
     \* no signature verifies
     [] kind = "commitH" -> IF h = 1 THEN CanonBlock(h)
                            ELSE [h |-> h, id |-> CanonId(h), uid |-> nm,
                                  lc |-> [h |-> h, bid |-> CanonBID(h - 1),
-                                         slots |-> [i \in 1..Len(ValsAt[h - 1]) |-> "X"]],
+                                         slots |-> [i \in 1..Len(ValsAt[h - 1]) |-> IF GenSlots(h - 1)[i] = "N" THEN "M" ELSE "X"]],
                                  valid |-> TRUE]
     [] kind \in CommitKinds ->
          \* (where the set leaves no room for the pattern the liar can only send the genuine commit)
-         IF h = 1 \/ SlotsOfKind(kind, ValsAt[h - 1]) = FullSlots(ValsAt[h - 1]) THEN CanonBlock(h)
+         IF h = 1 \/ SlotsOfKind(kind, ValsAt[h - 1], GenSlots(h - 1)) = GenSlots(h - 1) THEN CanonBlock(h)
          ELSE [h |-> h, id |-> nm, uid |-> nm,
-               lc |-> [h |-> h - 1, bid |-> CanonBID(h - 1), slots |-> SlotsOfKind(kind, ValsAt[h - 1])],
+               lc |-> [h |-> h - 1, bid |-> CanonBID(h - 1), slots |-> SlotsOfKind(kind, ValsAt[h - 1], GenSlots(h - 1))],
                valid |-> TRUE]
 
 \* ------------------------------------------------------------------ node state (sm.State as far as it matters)
@@ -188,7 +200,10 @@ ValidateBlock(st, lastPows, b) ==
   /\ b.valid
   /\ b.h = st.h + 1
   /\ IF b.h = 1 THEN b.lc = NoCommit
-     ELSE VerifyFull(lastPows, st.lastID, b.h - 1, b.lc)
+     ELSE /\ VerifyFull(lastPows, st.lastID, b.h - 1, b.lc)
+          \* validateBlock binds every LastCommit signature's address to the validator at its index
+          \* (fix 7c92f67: MedianTime weighs the timestamps by the power found under the address)
+          /\ \A i \in 1..Len(b.lc.slots) : b.lc.slots[i] \notin {"R", "Q"}
 
 \* ------------------------------------------------------------------ pool (pool.go)
 \* pool = [h, req, peers, maxH]
